@@ -771,5 +771,12 @@ func (c *Client) Do(ctx context.Context, q Query) (err error) {
 		}
 		return nil
 	})
-	return g.Wait()
+	if err := g.Wait(); err != nil {
+		// Sender can fail after encoding but before flushing (e.g. on server
+		// exception). If client is still open, such data should not be sent
+		// with the next request.
+		c.writer.Reset()
+		return err
+	}
+	return nil
 }
